@@ -283,8 +283,8 @@ def gen_spec(rng, big=False):
             load[t] = load.get(t, 0) + 1
             links.append({'assoc': ai, 'src': s, 'tgt': t})
 
-    classes = [{'kind': c['kind'], 'attrs': [[a['name'], a['type']] for a in c['attrs']], 'idents': c['idents']}
-               for c in work]
+    classes = [{'kind': c['kind'], 'attrs': [[a['name'], a['type']] for a in c['attrs']], 'idents': c['idents'],
+                'roles': [a['role'] for a in c['attrs']]} for c in work]
     return {'classes': classes, 'assocs': assocs, 'rows': rows, 'links': links, 'int_rel_ids': rng.random() < 0.5}
 
 
@@ -335,6 +335,13 @@ _Q = decimal.Decimal('0.000001')
 def dec6(v):
     """the six-decimal rounding of a float as an exact decimal (independent of '%f')"""
     return _CTX.quantize(decimal.Decimal(v), _Q)
+
+
+def dec6_parts(v):
+    """(negative?, millionths) of the six-decimal rounding of a float"""
+    sign, digits, exp = dec6(v).as_tuple()
+    assert exp == -6
+    return bool(sign), int(''.join(str(d) for d in digits))
 
 
 NULLS = {'BOOLEAN': False, 'INTEGER': 0, 'REAL': 0.0, 'STRING': '', 'UNIQUE_ID': 0}
@@ -419,3 +426,33 @@ def diff(a, b, path=''):
     if a != b:
         return '%s: %r vs %r' % (path, a, b)
     return None
+
+
+# --------------------------------------------------------------------------- loader observables (shared by C01 / C12)
+
+def stmt_dump(s):
+    """one parsed statement as the s-expression the Lean driver prints for it"""
+    from sexp import Sym
+    n = type(s).__name__
+    if n == 'CreateClassStmt':
+        return [Sym('table'), s.kind, [[a, b] for a, b in s.attributes]]
+    if n == 'CreateAssociationStmt':
+        return [Sym('rop'), s.rel_id, s.source_kind, s.source_cardinality, list(s.source_keys), s.source_phrase,
+                s.target_kind, s.target_cardinality, list(s.target_keys), s.target_phrase]
+    if n == 'CreateUniqueStmt':
+        return [Sym('index'), s.kind, s.name, list(s.attributes)]
+    if n == 'CreateInstanceStmt':
+        return [Sym('insert'), s.kind, list(s.values), Sym('none') if s.names is None else list(s.names)]
+    return [Sym('unknown-statement'), n]
+
+
+def uc_table(texts):
+    """Python's view of the non-ASCII characters of the texts: (code, is \\d, is \\w, upper-case code points)"""
+    import re
+    from sexp import Sym
+    seen = sorted(set(ch for t in texts for ch in t if ord(ch) >= 128))
+    rows = []
+    for ch in seen:
+        rows.append([ord(ch), Sym('T') if re.match(r'\d', ch) else Sym('F'), Sym('T') if re.match(r'[\w_]', ch) else Sym('F'),
+                     [ord(c) for c in ch.upper()]])
+    return rows
